@@ -521,9 +521,9 @@ def plan(tier, seed):
     for n in range(0, lf + 1):
         tasks += product_tasks("full", n, 1.0, seed, "exhaustive:full<=%d" % lf)
     info["exhaustive_spaces"].append("all strings of 0..%d symbols over the %d-symbol full alphabet (model column: all)" % (lf, len(FULL)))
-    r5q = 0.5
+    r5q = 0.5 if thorough else 0.2
     tasks += product_tasks("reduced", 5, r5q, seed, "exhaustive:reduced=5")
-    info["exhaustive_spaces"].append("all strings of 5 symbols over the %d-symbol reduced alphabet (model column: %s)" % (len(REDUCED), "seeded 50% sample"))
+    info["exhaustive_spaces"].append("all strings of 5 symbols over the %d-symbol reduced alphabet (model column: %s)" % (len(REDUCED), "seeded %.0f%% sample" % (100 * r5q)))
     if thorough:
         r5, r6 = 0.03, 0.03
         tasks += product_tasks("mid", 5, r5, seed, "exhaustive:mid=5")
